@@ -151,9 +151,6 @@ Print Assumptions C19_products_in_float_range.
    model: 'ab,bc->ac' sliced on b, x = [[1,0],[2,0]], y = [[1,2],[3,4]].  The plain total
    [[1,2],[2,4]] has no zero entry, slice b=1 is exactly zero, its factor is 0, the slice
    is (nan, -inf) and the gathered mantissa is NaN: mantissa * 10^exponent <> result. *)
-Definition zs_prog : list (instr xq) := [pair_step 2 0 1 [[(0,0)];[(0,1)];[(1,0)];[(1,1)]]%N].
-Definition zs_slices : list (list (list xq)) :=
-  [ [[q 1 1; q 2 1]; [q 1 1; q 2 1]];  [[q 0 1; q 0 1]; [q 3 1; q 4 1]] ].
 Theorem C19_zero_slice_refuted : exists prog slices r s,
   X_wf prog [0;1]%nat = true /\
   X_sum false false false prog slices = Some (Plain (MArr r)) /\
@@ -161,10 +158,7 @@ Theorem C19_zero_slice_refuted : exists prog slices r s,
   X_sum false true false prog slices = Some s /\
   x_value_ok (Plain (MArr r)) s = false /\
   s = Strip (MArr [XNaN; XNaN; XNaN; XNaN]) (XF 4).
-Proof.
-  exists zs_prog, zs_slices, [XF 1; XF 2; XF 2; XF 4], (Strip (MArr [XNaN; XNaN; XNaN; XNaN]) (XF 4)).
-  vm_compute. repeat split; reflexivity.
-Qed.
+Proof. exact zero_slice_refuted. Qed.
 Print Assumptions C19_zero_slice_refuted.
 
 (* with check_zero=True a single zero slice is absorbed ((0.0, -inf) has weight 10^-inf = 0),
@@ -176,7 +170,7 @@ Theorem C19_zero_slice_check_zero :
   X_sum false true true zs_prog [nth 1 zs_slices []; nth 1 zs_slices []; nth 0 zs_slices []] =
      Some (Strip (MArr [XNaN; XNaN; XNaN; XNaN]) (XF 4)) /\
   X_stack false true true false zs_prog [0;1]%nat zs_slices = None.
-Proof. vm_compute. repeat split; reflexivity. Qed.
+Proof. exact zero_slice_check_zero. Qed.
 Print Assumptions C19_zero_slice_check_zero.
 
 (* the same witnesses under the semantics of the proposed fix (first argument `true`:
@@ -194,7 +188,7 @@ Theorem C19_zero_slice_with_fix :
   X_stack true true false false zs_prog [0;1]%nat zs_slices =
     Some ([(0%nat, MArr [XF (1#4); XF (1#2); XF (1#2); XF 1]); (1%nat, MArr [XF 0; XF 0; XF 0; XF 0])], Some (XF 4)) /\
   X_stack true true true false zs_prog [0;1]%nat zs_slices = None.
-Proof. vm_compute. repeat split; reflexivity. Qed.
+Proof. exact zero_slice_with_fix. Qed.
 Print Assumptions C19_zero_slice_with_fix.
 
 (* ---- non-vacuity ---------------------------------------------------------------- *)
